@@ -620,6 +620,11 @@ extern const MPT_STRUCT(named_traits) *mpt_type_metatype_add(const char *name)
 			}
 			ext = ext->next;
 		}
+		/* name (or the type its short form stands for) is in use by an interface */
+		if (mpt_named_traits(name, -1)) {
+			errno = EINVAL;
+			return 0;
+		}
 		ext = meta_types;
 	}
 	pos = MPT_ENUM(_TypeMetaPtrBase);
@@ -692,6 +697,11 @@ extern const MPT_STRUCT(named_traits) *mpt_type_interface_add(const char *name)
 		}
 		nlen = strlen(name);
 		if (nlen++ < 4) {
+			errno = EINVAL;
+			return 0;
+		}
+		/* name (or the type its short form stands for) is in use by a metatype */
+		if (mpt_named_traits(name, -1)) {
 			errno = EINVAL;
 			return 0;
 		}
